@@ -111,7 +111,7 @@ CHECKS["C07"] = dict(
    design_ref="DESIGN.md 4.5, 6 (C07)", note=NW_NOTE)
 
 CHECKS["C05"] = dict(
-   technique="TLA+ models Backup.tla (C05_StoreLoads) and NitroMVCC.tla (C10_VisitPartition, C01) exhausted by TLC; TLC trace validation of recorded store -> restore -> continue histories (Trace_NitroMVCC.tla) and of backups taken under free-running concurrency (SetLin.tla)",
+   technique="TLA+ models Backup.tla (C05_StoreLoads), NitroMVCC.tla (C10_VisitPartition, C01) and NitroDelta.tla (delta interleaving: ScanPlusDeltaIsView, RestoreExact) exhausted by TLC; TLC trace validation of recorded store -> restore -> continue histories (Trace_NitroMVCC.tla) and of backups taken under free-running concurrency (SetLin.tla)",
    text="The backup is a visitor scan written through the framed files: TLC checks the scan partitions the snapshot's view for every pivot choice and that a fault-free store loads exactly for every write/flush interleaving. On the real code, StoreToDisk of latest or older snapshots runs while mutations, snapshot churn and garbage unlinking happen inside its item callback (delta on/off, concurrency 1/2/8); the directory is restored into a fresh instance and TLC requires items and Count() to equal the stored snapshot's view, then keeps validating the ongoing workload on the restored instance; backups taken while free-running writers, readers and GC run are restored and compared with the snapshot's content.",
    design_ref="DESIGN.md 4.4, 4.6, 6 (C05)",
    note=MV_NOTE + " Real StoreToDisk uses runtime.NumCPU() (16) shards; databases up to a few hundred items.")
